@@ -94,6 +94,93 @@ Theorem C01_sites_discharged :
 Proof. exact (conj sites_discharged ledger_tight). Qed.
 Print Assumptions C01_sites_discharged.
 
+(* ---- round 4 ---------------------------------------------------------------------------------------------------
+   (a) validated constructors that live in /repo: the acceptance predicate is read from tree/mod.rs, the guard in front of
+   every `NonZeroF32::new(v).unwrap()` from the function around the site (Gen/Totality.v); guard => acceptance. ---- *)
+From RV Require Import Gen.Totality Model.Totality Proofs.Totality.
+Local Close Scope Q_scope.
+
+Theorem C01_guard_nonzero_f32 : forall x, x_nonzero_f32 x = true <-> x_approx_zero 4 x = false.
+Proof. exact nonzero_f32_iff. Qed.
+Print Assumptions C01_guard_nonzero_f32.
+
+Theorem C01_nonzero_unwraps_guarded :
+  forallb nonzero_site_guarded parser_sites = true /\
+  (forall f g t v guard, In (f, g, t, v, guard) G_NONZERO_F32_UNWRAPS -> forall x, guard_passes guard x = true -> x_nonzero_f32 x = true).
+Proof. exact (conj nonzero_sites_guarded nonzero_unwraps_safe). Qed.
+Print Assumptions C01_nonzero_unwraps_guarded.
+
+Theorem C01_guard_covers_sound : forall rejects guard, guard_covers rejects guard = true ->
+  forall x, guard_passes guard x = true -> ctor_accepts rejects x = true.
+Proof. exact guard_covers_sound. Qed.
+Print Assumptions C01_guard_covers_sound.
+
+(* non-vacuity: the feConvolveMatrix site exists, its guard lets the overflowed kernel sums through (+inf, -inf, NaN pass
+   `approx_zero_ulps(4)`), and the constructor as written today accepts them; a constructor that also rejects non-finite
+   values is not covered by that guard *)
+Example C01_nv_convolve_guard :
+  length G_NONZERO_F32_UNWRAPS = 1%nat /\
+  forallb (fun x => guard_passes [AApproxZero 4] x && x_nonzero_f32 x) [XPInf; XNInf; XNaN; XFin 1%Q] = true /\
+  guard_passes [AApproxZero 4] (XFin 0%Q) = false /\
+  guard_covers [ANotFinite; AApproxZero 4] [AApproxZero 4] = false.
+Proof. vm_compute. repeat split; reflexivity. Qed.
+
+(* (b) every `loop` / `while` of parser/** and tree/mod.rs has a ledger entry for exactly its text, the shape the scanner reads
+   off the source fits the entry, a loop that follows reference attributes has a PROVED termination class, and the ledger
+   has no stale entry.  The proved classes: LFinder = C01_fix_loops_terminate; LVisited = the next theorem. ---- *)
+Theorem C01_loops_discharged :
+  forallb (loop_discharged_by loop_ledger) parser_loops = true /\ forallb loop_entry_live loop_ledger = true.
+Proof. exact (conj loops_discharged loop_ledger_tight). Qed.
+Print Assumptions C01_loops_discharged.
+
+Theorem C01_visited_walk_terminates : forall (next : N -> option N) (univ : list N) (start : N),
+  (forall a b, next a = Some b -> In b univ) ->
+  exists chain, visited_walk next univ start = Some chain /\ (length chain <= S (length univ))%nat.
+Proof. exact visited_walk_terminates. Qed.
+Print Assumptions C01_visited_walk_terminates.
+
+(* the walk that only stops at its starting node never returns on the rho-shaped chain 0 -> 1 -> 2 -> 3 -> 1 *)
+Theorem C01_start_only_walk_refuted : forall fuel, walk_start_only rho_next fuel 0%N 0%N = None.
+Proof. exact start_only_walk_diverges. Qed.
+Print Assumptions C01_start_only_walk_refuted.
+
+Example C01_nv_walk_rho : visited_walk rho_next [0; 1; 2; 3]%N 0%N = Some [3; 2; 1; 0]%N.
+Proof. vm_compute. reflexivity. Qed.
+
+(* (c) the definition caches: requests for cacheable definitions cause at most one conversion per definition, in any order
+   and however many requests there are (requests arrive one after the other: the converter is not re-entered for a
+   definition in progress because reference cycles are removed first, C03); without the lookup every request converts.
+   The lookup sites and their conditions are pinned to the source. ---- *)
+Theorem C01_cached_conversions_linear : forall (U : list N) (reqs : list (N * bool)),
+  (forall r, In r reqs -> snd r = true /\ In (fst r) U) -> (conversions [] reqs <= length U)%nat.
+Proof. exact cached_conversions_linear. Qed.
+Print Assumptions C01_cached_conversions_linear.
+
+Theorem C01_uncached_conversions_all : forall reqs cache, (forall r, In r reqs -> snd r = false) -> conversions cache reqs = length reqs.
+Proof. exact uncached_conversions_all. Qed.
+Print Assumptions C01_uncached_conversions_all.
+
+From Coq Require String.
+Import String.StringSyntax.
+Local Open Scope string_scope.
+Theorem C01_cache_sites_pinned :
+  lookup_unconditional "paint" = true /\
+  lookup_under "clip_paths" "cacheable" "cacheable = is_cacheable(node)" = true /\
+  lookup_under "masks" "cacheable" "cacheable = is_cacheable(node)" = true /\
+  lookup_under "filters" "cacheable" "cacheable = units == Units::UserSpaceOnUse && primitive_units == Units::UserSpaceOnUse" = true /\
+  length G_CACHE_LOOKUPS = 4%nat /\
+  G_CACHE_INSERTS = [("paint", "convert", "insert"); ("clip_paths", "convert", "insert"); ("masks", "convert", "insert");
+                     ("masks", "convert", "insert"); ("filters", "convert_url", "insert")].
+Proof. exact cache_sites_pinned. Qed.
+Print Assumptions C01_cache_sites_pinned.
+Local Close Scope string_scope.
+
+(* 1000 requests for 3 cacheable definitions: 3 conversions; the same requests uncached: 1000 *)
+Example C01_nv_cache :
+  conversions [] (flat_map (fun _ => [(1, true); (2, true); (3, true); (2, true)]%N) (seq 0 250)) = 3%nat /\
+  conversions [] (flat_map (fun _ => [(1, false); (2, false); (3, false); (2, false)]%N) (seq 0 250)) = 1000%nat.
+Proof. vm_compute. split; reflexivity. Qed.
+
 (* ---- "time proportional to the input" is REFUTED at the model level too (known class
    reference-fan-out-exponential): k non-cacheable masks, each referenced three times by the next, make the
    converter enter 1 + 3 + ... + 3^(k-1) definitions although the document has 4k + 2 elements ---- *)
